@@ -458,4 +458,23 @@ def engOfArraysGrid (A : EngArrays) (env : Nat → Nat) (g : GridShape) (h : Rat
 /-- the edge list handed to `engineexport_initialize_graph`: endpoints, surface and distance as numbers in `U` -/
 def edgesInU (U : Sys) (edges : List PyEdge) : List GEdge := edges.map fun e => ⟨e.i, e.j, e.sfc.inU U, e.dst.inU U⟩
 
+/-! ### dimension well-formedness (the invariants the setters establish), as a computable test
+
+`Props/C01Units.lean` proves that it implies `DimWF` / `EdgesWF`, the hypotheses of the any-units theorems; the driver op
+`pysys_dimwf` evaluates it on every real system the harness builds. -/
+
+def envValDimB (v : EnvVal) (d : Dim) : Bool :=
+  match v with
+  | .single q => q.dim == d
+  | .dict es => es.all fun p => p.2.dim == d
+
+def dimWFb (sys : PySys) : Bool :=
+  sys.reactions.all (fun r => r.sub.length == sys.nSpecies && r.prod.length == sys.nSpecies &&
+    envValDimB r.kf (kfDim (natSum r.sub)) && envValDimB r.kr (kfDim (natSum r.prod))) &&
+  sys.dcoef.all (fun v => envValDimB v Dim.diffusion) &&
+  (match sys.space with
+   | .grid _ v _ _ => v.dim == Dim.volume
+   | .graph ns es => ns.all (fun n => n.vol.dim == Dim.volume) &&
+      es.all (fun e => e.sfc.dim == Dim.surface && e.dst.dim == Dim.length))
+
 end Strengths
